@@ -1635,4 +1635,82 @@ theorem View.exec_session (perm : Nat → List Nat) : ∀ (ops : List VOp) (v : 
 
 end Views
 
+/-! ## 10. The `Seeded` layer (`sampler.base_seed` reassigned) -/
+
+theorem Seeded.exec_append (src : Nat → Nat → List Nat) : ∀ (a b : List SOp) (z : Seeded),
+    Seeded.exec src (a ++ b) z
+      = ((Seeded.exec src a z).1 ++ (Seeded.exec src b (Seeded.exec src a z).2).1,
+         (Seeded.exec src b (Seeded.exec src a z).2).2) := by
+  intro a
+  induction a with
+  | nil => intro b z; rfl
+  | cons op a ih =>
+    intro b z
+    show ((op, _) :: (Seeded.exec src (a ++ b) _).1, (Seeded.exec src (a ++ b) _).2) = _
+    rw [ih]
+    rfl
+
+theorem Seeded.exec_length (src : Nat → Nat → List Nat) : ∀ (ops : List SOp) (z : Seeded),
+    (Seeded.exec src ops z).1.length = ops.length := by
+  intro ops
+  induction ops with
+  | nil => intro z; rfl
+  | cons op ops ih =>
+    intro z
+    show ((Seeded.exec src ops _).1.length + 1) = ops.length + 1
+    rw [ih]
+
+theorem Seeded.exec_seed (src : Nat → Nat → List Nat) : ∀ (ops : List SOp) (z : Seeded),
+    (Seeded.exec src ops z).2.seed = seedAfter z.seed ops := by
+  intro ops
+  induction ops with
+  | nil => intro z; rfl
+  | cons op ops ih =>
+    intro z
+    show (Seeded.exec src ops (Seeded.step src op z).2).2.seed = _
+    rw [ih]
+    cases op <;> rfl
+
+/-- No operation of the `View` language touches the epoch sampler's configuration or the batching
+arguments other than the drop flag. -/
+theorem View.step_fixed (perm : Nat → List Nat) (op : VOp) (v : View) :
+    (View.step perm op v).2.session.loader.sampler.cfg = v.session.loader.sampler.cfg ∧
+    (View.step perm op v).2.session.loader.cfg.lens = v.session.loader.cfg.lens ∧
+    (View.step perm op v).2.session.loader.cfg.nb = v.session.loader.cfg.nb ∧
+    (View.step perm op v).2.session.loader.cfg.B = v.session.loader.cfg.B ∧
+    (View.step perm op v).2.session.loader.cfg.dynamic = v.session.loader.cfg.dynamic := by
+  cases op with
+  | io o =>
+    have h := Session.exec_fixed perm [o] v.session
+    have h1 : (Session.step perm o v.session).2.loader.cfg = v.session.loader.cfg := h.1
+    have h2 : (Session.step perm o v.session).2.loader.sampler.cfg = v.session.loader.sampler.cfg := h.2
+    exact ⟨h2, congrArg LoaderCfg.lens h1, congrArg LoaderCfg.nb h1, congrArg LoaderCfg.B h1,
+      congrArg LoaderCfg.dynamic h1⟩
+  | assign a b => exact ⟨rfl, rfl, rfl, rfl, rfl⟩
+  | setDrop d => exact ⟨rfl, rfl, rfl, rfl, rfl⟩
+
+theorem Seeded.exec_fixed (src : Nat → Nat → List Nat) : ∀ (ops : List SOp) (z : Seeded),
+    (Seeded.exec src ops z).2.view.session.loader.sampler.cfg = z.view.session.loader.sampler.cfg ∧
+    (Seeded.exec src ops z).2.view.session.loader.cfg.lens = z.view.session.loader.cfg.lens ∧
+    (Seeded.exec src ops z).2.view.session.loader.cfg.nb = z.view.session.loader.cfg.nb ∧
+    (Seeded.exec src ops z).2.view.session.loader.cfg.B = z.view.session.loader.cfg.B ∧
+    (Seeded.exec src ops z).2.view.session.loader.cfg.dynamic = z.view.session.loader.cfg.dynamic := by
+  intro ops
+  induction ops with
+  | nil => intro z; exact ⟨rfl, rfl, rfl, rfl, rfl⟩
+  | cons op ops ih =>
+    intro z
+    have h := ih (Seeded.step src op z).2
+    have hs : (Seeded.step src op z).2.view.session.loader.sampler.cfg = z.view.session.loader.sampler.cfg ∧
+        (Seeded.step src op z).2.view.session.loader.cfg.lens = z.view.session.loader.cfg.lens ∧
+        (Seeded.step src op z).2.view.session.loader.cfg.nb = z.view.session.loader.cfg.nb ∧
+        (Seeded.step src op z).2.view.session.loader.cfg.B = z.view.session.loader.cfg.B ∧
+        (Seeded.step src op z).2.view.session.loader.cfg.dynamic = z.view.session.loader.cfg.dynamic := by
+      cases op with
+      | v o => exact View.step_fixed (src z.seed) o z.view
+      | setSeed s => exact ⟨rfl, rfl, rfl, rfl, rfl⟩
+    show (Seeded.exec src ops (Seeded.step src op z).2).2.view.session.loader.sampler.cfg = _ ∧ _
+    exact ⟨h.1.trans hs.1, h.2.1.trans hs.2.1, h.2.2.1.trans hs.2.2.1, h.2.2.2.1.trans hs.2.2.2.1,
+      h.2.2.2.2.trans hs.2.2.2.2⟩
+
 end PdtVerif.Batching
